@@ -335,7 +335,11 @@ func (db *DB) exist(o Object) (ok bool, err error) {
 	if os.IsNotExist(err) {
 		return false, nil
 	}
-	return stat.Mode().IsRegular() && err == nil, nil
+	// there is no stat to look at whatever the error is
+	if err != nil {
+		return false, err
+	}
+	return stat.Mode().IsRegular(), nil
 }
 
 func (db *DB) writeObject(o Object) (err error) {
